@@ -116,8 +116,7 @@ theorem read_typed_sound : ∀ (t : Target), Sound t
   | .str => sound_scalar (m := .str) rfl (fun _ _ => by simp only [Read.cast]) (fun _ _ _ => by simp only [readAs])
   | .bytes => sound_scalar (m := .bytes) rfl (fun _ _ => by simp only [Read.cast])
       (fun a _ hl => by cases a <;> first | exact absurd rfl (hl _ _ _ _ _) | simp only [readAs])
-  | .byteBuf => sound_scalar (m := .byteBuf) rfl (fun _ _ => by simp only [Read.cast])
-      (fun a _ hl => by cases a <;> first | exact absurd rfl (hl _ _ _ _ _) | simp only [readAs])
+  | .byteBuf => sound_byteBuf
   | .option t => sound_option (read_typed_sound t)
   | .newtype t => sound_newtype (read_typed_sound t)
   | .seq t => sound_seq (read_typed_sound t)
